@@ -161,7 +161,7 @@ fn profile() -> Profile {
 
 type Snap = BTreeMap<PathBuf, Vec<u8>>;
 
-fn snapshot(dir: &Path) -> (Snap, Snap) {
+fn snapshot(dir: &Path, cname: &str) -> (Snap, Snap) {
     let mut work = Snap::new();
     let mut corr = Snap::new();
     let read = |d: &Path, out: &mut Snap| {
@@ -175,11 +175,11 @@ fn snapshot(dir: &Path) -> (Snap, Snap) {
         }
     };
     read(dir, &mut work);
-    read(&dir.join("corrupted"), &mut corr);
+    read(&dir.join(cname), &mut corr);
     (work, corr)
 }
 
-fn compare(prev: &(Snap, Snap), cur: &(Snap, Snap), dir: &Path) -> Option<(String, String)> {
+fn compare(prev: &(Snap, Snap), cur: &(Snap, Snap), dir: &Path, cname: &str) -> Option<(String, String)> {
     for (p, old) in prev.0.iter() {
         match cur.0.get(p) {
             Some(new) => {
@@ -192,7 +192,7 @@ fn compare(prev: &(Snap, Snap), cur: &(Snap, Snap), dir: &Path) -> Option<(Strin
                 }
             }
             None => {
-                let q = dir.join("corrupted").join(p.file_name().unwrap());
+                let q = dir.join(cname).join(p.file_name().unwrap());
                 match cur.1.get(&q) {
                     Some(moved) if moved == old => {}
                     Some(moved) if moved.len() >= old.len() && &moved[..old.len()] == old.as_slice() => {}
@@ -238,15 +238,16 @@ struct Out {
 async fn run(l: &mut Loose<8>, ops: &[Op], rng: &mut Rng) -> Out {
     let mut out = Out { violation: None, quarantines: 0, faults_fired: 0, snapshots: 0, query_windows: 0, events: 0, blob_creations: 0, max_blobs: 0, init_failed: 0, plan: String::new() };
     let dir = l.dir.clone();
+    let cname = l.cfg.corrupted_name().to_string();
     let mut trace = Trace::new(false, true);
-    trace.corrupted_dir = Some(dir.join("corrupted"));
+    trace.corrupted_dir = Some(dir.join(&cname));
     tap::arm(&dir, false, false);
     if let Err(e) = l.open(false).await {
         out.violation = Some(("init-failed-on-empty-dir".into(), e));
         let _ = tap::disarm(&dir);
         return out;
     }
-    let mut prev = snapshot(&dir);
+    let mut prev = snapshot(&dir, &cname);
     let mut garbage_n = 0u64;
     let fault_step = if rng.chance(1, 2) { Some(rng.below(ops.len() as u64) as usize) } else { None };
     for (i, op) in ops.iter().enumerate() {
@@ -257,9 +258,9 @@ async fn run(l: &mut Loose<8>, ops: &[Op], rng: &mut Rng) -> Out {
             }
             let ev = tap::drain(&dir);
             trace.feed(&ev);
-            let cur = snapshot(&dir);
+            let cur = snapshot(&dir, &cname);
             out.snapshots += 1;
-            if let Some(v) = compare(&prev, &cur, &dir) {
+            if let Some(v) = compare(&prev, &cur, &dir, &cname) {
                 out.violation = Some(v);
                 break;
             }
@@ -313,7 +314,7 @@ async fn run(l: &mut Loose<8>, ops: &[Op], rng: &mut Rng) -> Out {
                 garbage_n += 1;
                 let id = 50 + garbage_n;
                 let p = dir.join(format!("t.{}.blob", id));
-                if !p.exists() && !dir.join("corrupted").join(format!("t.{}.blob", id)).exists() {
+                if !p.exists() && !dir.join(&cname).join(format!("t.{}.blob", id)).exists() {
                     let _ = std::fs::write(&p, rng.bytes_range(1, 200));
                     out.plan.push_str(&format!("[{}:garbage t.{}.blob]", i, id));
                 }
@@ -328,7 +329,7 @@ async fn run(l: &mut Loose<8>, ops: &[Op], rng: &mut Rng) -> Out {
                 }
             }
             // the harness changed files itself: new baseline; the tap trace learns about the new content
-            prev = snapshot(&dir);
+            prev = snapshot(&dir, &cname);
             for (p, c) in prev.0.iter() {
                 if let Some(f) = trace.files.get_mut(p) {
                     f.len = c.len() as u64;
@@ -343,7 +344,7 @@ async fn run(l: &mut Loose<8>, ops: &[Op], rng: &mut Rng) -> Out {
                 let _ = e;
                 break;
             }
-            let cur = snapshot(&dir);
+            let cur = snapshot(&dir, &cname);
             out.quarantines += (cur.1.len().saturating_sub(before_q)) as u64;
         } else {
             if fault_step == Some(i) {
@@ -371,10 +372,10 @@ async fn run(l: &mut Loose<8>, ops: &[Op], rng: &mut Rng) -> Out {
             out.violation = Some((format!("tap/{}", v.rule.trim_start_matches("c07/")), format!("step {} ({}): {}", i, op.short(), v.detail)));
             break;
         }
-        let cur = snapshot(&dir);
+        let cur = snapshot(&dir, &cname);
         out.snapshots += 1;
         out.max_blobs = out.max_blobs.max((cur.0.len() + cur.1.len()) as u64);
-        if let Some((sig, d)) = compare(&prev, &cur, &dir) {
+        if let Some((sig, d)) = compare(&prev, &cur, &dir, &cname) {
             out.violation = Some((sig, format!("step {} ({}): {}", i, op.short(), d)));
             break;
         }
@@ -397,7 +398,7 @@ async fn run(l: &mut Loose<8>, ops: &[Op], rng: &mut Rng) -> Out {
     if out.violation.is_none() {
         if let Some(v) = trace.violations.first() {
             out.violation = Some((format!("tap/{}", v.rule.trim_start_matches("c07/")), format!("at close: {}", v.detail)));
-        } else if let Some(v) = compare(&prev, &snapshot(&dir), &dir) {
+        } else if let Some(v) = compare(&prev, &snapshot(&dir, &cname), &dir, &cname) {
             out.violation = Some(v);
         }
     }
@@ -421,7 +422,7 @@ async fn concurrent_scenario(dir: PathBuf, cfg: crate::drive::Cfg, seed: u64) ->
         s.init().await.map_err(|e| ("init".to_string(), format!("{:#}", e)))?;
     }
     let mut trace = Trace::new(false, true);
-    trace.corrupted_dir = Some(dir.join("corrupted"));
+    trace.corrupted_dir = Some(dir.join(cfg.corrupted_name()));
     trace.seed_dir(&dir);
     tap::arm(&dir, false, false);
     tap::set_faults(&dir, vec![Fault { kinds: vec![Kind::Write], suffix: ".blob".into(), nth: rng.range(0, 20), sticky: false, action: Action::Delay(rng.range(5, 60)) }]);
@@ -491,6 +492,10 @@ pub fn shard(ctx: &Ctx) -> Shard {
         // a quarter of the histories: damaged blobs are left in place (ignore_corrupted) instead of being moved
         // to corrupted/; their ids stay taken and their bytes stay untouched all the same
         cfg.ignore_corrupted = rng.chance(1, 4);
+        // a third of the histories give the quarantine directory another name (Builder::corrupted_dir_name)
+        if rng.chance(1, 3) {
+            cfg.corrupted_dir = Some((*rng.pick(&["quarantine", "bad.blobs", "c"])).to_string());
+        }
         let ops = gen_history(&mut rng, &p);
         let case_seed = rng.next();
         let dir = new_dir("c07-");
@@ -511,6 +516,9 @@ pub fn shard(ctx: &Ctx) -> Shard {
                 sh.add("query_windows_checked", out.query_windows);
                 sh.add("init_failed_after_damage", out.init_failed);
                 sh.add(if cfg.ignore_corrupted { "histories_ignore_corrupted" } else { "histories_quarantine_mode" }, 1);
+                if cfg.corrupted_dir.is_some() {
+                    sh.add("histories_custom_quarantine_dir_name", 1);
+                }
                 sh.max("max_blob_files", out.max_blobs);
                 if out.quarantines > 0 || out.faults_fired > 0 || out.max_blobs >= 2 {
                     sh.nontrivial.insert(fnv(format!("{}|{}", history_short(&ops), out.plan).as_bytes()));
